@@ -84,6 +84,17 @@ fn judge_fault(ctx: &Ctx, scope: &str, clean: &Run, run: &Run, side: Side, trans
     true
 }
 
+/// A sink may hold what it accepted until it is flushed (BufWriter, a socket with Nagle, a staging file):
+/// it is a conforming sink, so on success everything accepted must have been followed by a flush - otherwise
+/// the result over that sink differs from the result over an unbuffered one.
+fn accepted_bytes_all_flushed(run: &Run) -> bool {
+    let ev = run.log.events();
+    match ev.iter().rposition(|e| e.op == Op::Write && matches!(e.res, crate::ioscript::Res::N(n) if n > 0)) {
+        None => true,
+        Some(i) => ev[i + 1..].iter().any(|e| e.op == Op::Flush && e.res == crate::ioscript::Res::FlushOk),
+    }
+}
+
 /// A fault at every call index of every kind, for one (input, schedule) pair.
 fn sweep(ctx: &Ctx, scope: &str, input: &[u8], base: &Io, call: &dyn Fn(&[u8], &Io) -> Run, case: &dyn Fn() -> Value, stride: usize, tag: &str) {
     let clean = call(input, base);
@@ -91,6 +102,13 @@ fn sweep(ctx: &Ctx, scope: &str, input: &[u8], base: &Io, call: &dyn Fn(&[u8], &
         ctx.violation(&format!("C10:{}:panic:{}", scope, panic_site(p)), case());
         return;
     }
+    if clean.outcome.is_ok() && !accepted_bytes_all_flushed(&clean) {
+        let mut v = case();
+        v["trace"] = json!(clean.log.shape().chars().take(600).collect::<String>());
+        ctx.violation(&format!("C10:{}:success-although-accepted-bytes-were-never-flushed", scope), v);
+        return;
+    }
+    ctx.seen("fault-free run: every accepted byte was followed by a successful flush");
     let (r, w, f) = (clean.log.count(Op::Read), clean.log.count(Op::Write), clean.log.count(Op::Flush));
     let stride = stride.max(1);
     for i in (0..r).filter(|i| *i < 12 || i % stride == 0 || *i + 3 >= r) {
@@ -188,6 +206,23 @@ fn small_block(ctx: &Ctx) {
             return;
         }
         sweep(ctx, "small-decrypt", &ct, &dec_io, &dec, &case, 1, &format!("{}", i));
+        // the same plaintext as a stream cut differently by another conforming encryptor (the read partition as
+        // chunk sizes, closed by an EMPTY final chunk): same result, same fault behaviour
+        if *len > 0 && i % 2 == 0 {
+            let mut foreign_chunking = comp.clone();
+            foreign_chunking.push(0);
+            let ct2 = refspec::encode_body(&pt, &foreign_chunking, &key, aad);
+            let case2 = || json!({"direction": "decrypt", "stream": "data chunks closed by an empty final chunk", "chunking": foreign_chunking, "ciphertext": hex(&ct2), "chunk_size": c, "key": hex(&key), "aad": hex(aad), "io": dec_io.describe()});
+            let e0 = dec(&ct2, &Io::plain());
+            let e1 = dec(&ct2, &dec_io);
+            ctx.eval();
+            if !(e0.outcome.is_ok() && e1.outcome.is_ok() && e0.out == pt && e1.out == pt) {
+                ctx.violation("C10:small:decrypt-result-depends-on-schedule:empty-final-chunk", case2());
+                return;
+            }
+            sweep(ctx, "small-decrypt", &ct2, &dec_io, &dec, &case2, 1, &format!("{}e", i));
+            ctx.seen("small: stream closed by an empty final chunk swept");
+        }
         // a tampered file too: the result class must not depend on the schedule, faults still surface
         if !ct.is_empty() && i % 5 == 0 {
             let mut bad = ct.clone();
@@ -371,6 +406,8 @@ pub fn run(ctx: &Ctx) {
     if !crate::lib_only() {
         cli_block(ctx);
     }
+    ctx.require("small: stream closed by an empty final chunk swept", 20);
+    ctx.require("fault-free run: every accepted byte was followed by a successful flush", 100);
     ctx.require("small-encrypt: Read fault -> error", 100);
     ctx.require("small-encrypt: Write fault -> error", 100);
     ctx.require("small-decrypt: Read fault -> error", 100);
